@@ -4,6 +4,7 @@ import (
 	"bytes"
 	"encoding/binary"
 	"errors"
+	"fmt"
 	"io"
 
 	"golang.org/x/exp/constraints"
@@ -12,6 +13,16 @@ import (
 type BinaryCodec interface {
 	Encode(buf *bytes.Buffer) error
 	Decode(buf *bytes.Buffer) error
+}
+
+// lengthPrefix converts a byte length or element count to its wire prefix type,
+// refusing values the prefix cannot represent instead of silently wrapping them.
+func lengthPrefix[T constraints.Unsigned](n int) (T, error) {
+	t := T(n)
+	if int(t) != n {
+		return 0, fmt.Errorf("length %d does not fit in its %d-byte length prefix", n, binary.Size(t))
+	}
+	return t, nil
 }
 
 type BasicType interface {
@@ -42,7 +53,11 @@ func ReadBasicTypeLE[T BasicType](buf *bytes.Buffer) (T, error) {
 }
 
 func WriteBasicTypeList[T constraints.Unsigned, K BasicType](buf *bytes.Buffer, values []K) error {
-	if err := binary.Write(buf, binary.BigEndian, T(len(values))); err != nil {
+	n, err := lengthPrefix[T](len(values))
+	if err != nil {
+		return err
+	}
+	if err := binary.Write(buf, binary.BigEndian, n); err != nil {
 		return err
 	}
 	for _, s := range values {
@@ -54,7 +69,11 @@ func WriteBasicTypeList[T constraints.Unsigned, K BasicType](buf *bytes.Buffer, 
 }
 
 func WriteBasicTypeListLE[T constraints.Unsigned, K BasicType](buf *bytes.Buffer, values []K) error {
-	if err := binary.Write(buf, binary.LittleEndian, T(len(values))); err != nil {
+	n, err := lengthPrefix[T](len(values))
+	if err != nil {
+		return err
+	}
+	if err := binary.Write(buf, binary.LittleEndian, n); err != nil {
 		return err
 	}
 	for _, s := range values {
@@ -109,7 +128,11 @@ func ReadBasicTypeListLE[T constraints.Unsigned, K BasicType](buf *bytes.Buffer)
 // ----------------------------
 
 func WriteString[T constraints.Unsigned](buf *bytes.Buffer, s string) error {
-	if err := binary.Write(buf, binary.BigEndian, T(len(s))); err != nil {
+	n, err := lengthPrefix[T](len(s))
+	if err != nil {
+		return err
+	}
+	if err := binary.Write(buf, binary.BigEndian, n); err != nil {
 		return err
 	}
 	if _, err := buf.WriteString(s); err != nil {
@@ -119,7 +142,11 @@ func WriteString[T constraints.Unsigned](buf *bytes.Buffer, s string) error {
 }
 
 func WriteStringLE[T constraints.Unsigned](buf *bytes.Buffer, s string) error {
-	if err := binary.Write(buf, binary.LittleEndian, T(len(s))); err != nil {
+	n, err := lengthPrefix[T](len(s))
+	if err != nil {
+		return err
+	}
+	if err := binary.Write(buf, binary.LittleEndian, n); err != nil {
 		return err
 	}
 	if _, err := buf.WriteString(s); err != nil {
@@ -199,7 +226,11 @@ func WriteFixedStringList[T constraints.Unsigned](buf *bytes.Buffer, values []st
 }
 
 func WriteFixedStringListWithPadding[T constraints.Unsigned](buf *bytes.Buffer, values []string, fixedLen int, padChar rune, padLeft bool) error {
-	if err := binary.Write(buf, binary.BigEndian, T(len(values))); err != nil {
+	n, err := lengthPrefix[T](len(values))
+	if err != nil {
+		return err
+	}
+	if err := binary.Write(buf, binary.BigEndian, n); err != nil {
 		return err
 	}
 
@@ -217,7 +248,11 @@ func WriteFixedStringListLE[T constraints.Unsigned](buf *bytes.Buffer, values []
 	return WriteFixedStringListWithPaddingLE[T](buf, values, fixedLen, ' ', false)
 }
 func WriteFixedStringListWithPaddingLE[T constraints.Unsigned](buf *bytes.Buffer, values []string, fixedLen int, padChar rune, padLeft bool) error {
-	if err := binary.Write(buf, binary.LittleEndian, T(len(values))); err != nil {
+	n, err := lengthPrefix[T](len(values))
+	if err != nil {
+		return err
+	}
+	if err := binary.Write(buf, binary.LittleEndian, n); err != nil {
 		return err
 	}
 
@@ -293,13 +328,21 @@ func ReadFixedStringListTrimPaddingLE[T constraints.Unsigned](buf *bytes.Buffer,
 // K: type used for each string's length prefix (e.g., uint8, uint16, uint32)
 func WriteStringListLE[T constraints.Unsigned, K constraints.Unsigned](buf *bytes.Buffer, values []string) error {
 	// Write the list length prefix
-	if err := binary.Write(buf, binary.LittleEndian, T(len(values))); err != nil {
+	n, err := lengthPrefix[T](len(values))
+	if err != nil {
+		return err
+	}
+	if err := binary.Write(buf, binary.LittleEndian, n); err != nil {
 		return err
 	}
 
 	// Write each string with its own length prefix
 	for _, s := range values {
-		if err := binary.Write(buf, binary.LittleEndian, K(len(s))); err != nil {
+		n, err := lengthPrefix[K](len(s))
+		if err != nil {
+			return err
+		}
+		if err := binary.Write(buf, binary.LittleEndian, n); err != nil {
 			return err
 		}
 		buf.WriteString(s)
@@ -309,13 +352,21 @@ func WriteStringListLE[T constraints.Unsigned, K constraints.Unsigned](buf *byte
 
 func WriteStringList[T constraints.Unsigned, K constraints.Unsigned](buf *bytes.Buffer, values []string) error {
 	// Write the list length prefix
-	if err := binary.Write(buf, binary.BigEndian, T(len(values))); err != nil {
+	n, err := lengthPrefix[T](len(values))
+	if err != nil {
+		return err
+	}
+	if err := binary.Write(buf, binary.BigEndian, n); err != nil {
 		return err
 	}
 
 	// Write each string with its own length prefix
 	for _, s := range values {
-		if err := binary.Write(buf, binary.BigEndian, K(len(s))); err != nil {
+		n, err := lengthPrefix[K](len(s))
+		if err != nil {
+			return err
+		}
+		if err := binary.Write(buf, binary.BigEndian, n); err != nil {
 			return err
 		}
 		buf.WriteString(s)
@@ -387,7 +438,11 @@ func ReadStringList[T constraints.Unsigned, K constraints.Unsigned](buf *bytes.B
 // Object
 func WriteObjectList[T constraints.Unsigned, K BinaryCodec](buf *bytes.Buffer, values []K) error {
 	// Write the list length prefix
-	if err := binary.Write(buf, binary.BigEndian, T(len(values))); err != nil {
+	n, err := lengthPrefix[T](len(values))
+	if err != nil {
+		return err
+	}
+	if err := binary.Write(buf, binary.BigEndian, n); err != nil {
 		return err
 	}
 
@@ -421,7 +476,11 @@ func ReadObjectList[T constraints.Unsigned, K BinaryCodec](buf *bytes.Buffer, ne
 // Object
 func WriteObjectListLE[T constraints.Unsigned, K BinaryCodec](buf *bytes.Buffer, values []K) error {
 	// Write the list length prefix
-	if err := binary.Write(buf, binary.LittleEndian, T(len(values))); err != nil {
+	n, err := lengthPrefix[T](len(values))
+	if err != nil {
+		return err
+	}
+	if err := binary.Write(buf, binary.LittleEndian, n); err != nil {
 		return err
 	}
 
